@@ -49,6 +49,9 @@ func (core *JApiCore) processDirective(d *directive.Directive) *jerr.JApiError {
 }
 
 func (core *JApiCore) processPasteDirective(paste *directive.Directive) *jerr.JApiError {
+	if _, ok := core.bannedDirectives[directive.Paste]; ok {
+		return paste.KeywordError(fmt.Sprintf("%s (%s)", jerr.DirectiveNotAllowed, directive.Paste.String()))
+	}
 	if paste.Annotation != "" {
 		return paste.KeywordError(jerr.AnnotationIsForbiddenForTheDirective)
 	}
